@@ -205,6 +205,15 @@ int conf_tree_get(const char *path, const unsigned char **data, size_t *len)
     return 0;
 }
 
+uint64_t conf_trace_digest(int from)
+{
+    uint64_t h = 1469598103934665603ULL;
+    for (int i = from; i < ngot; i++) { h ^= (uint64_t)got[i].h * 31 + (uint64_t)got[i].kind; h *= 0x100000001b3ULL; h ^= got[i].thash; h *= 0x100000001b3ULL; h ^= got[i].sin - (from ? got[from].sout - 1 : 0); h *= 0x100000001b3ULL; }
+    return h;
+}
+int conf_trace_count(void) { return ngot; }
+void conf_set_index_checks(int on) { check_indices = on; }
+
 static void compare_traces(const char *when)
 {
     int n = ngot < nwant ? ngot : nwant;
